@@ -9,6 +9,7 @@ import (
 	"os"
 	"path/filepath"
 	"sort"
+	"strings"
 	"time"
 
 	"github.com/FollowTheProcess/msg"
@@ -369,6 +370,10 @@ func (a *App) clean(spokfile *file.SpokFile) error {
 			if !ok {
 				return fmt.Errorf("Named output %s is not defined", namedOutput)
 			}
+			if !filepath.IsAbs(actual) {
+				// Like file outputs, relative to the spokfile not to wherever spok was called from
+				actual = filepath.Join(spokfile.Dir, actual)
+			}
 			resolved, err := filepath.Abs(actual)
 			if err != nil {
 				return err
@@ -381,6 +386,24 @@ func (a *App) clean(spokfile *file.SpokFile) error {
 				}
 			}
 			toRemove = append(toRemove, resolved)
+		}
+
+		// And everything matching a glob output
+		for _, pattern := range task.GlobOutputs {
+			matches, err := spokfile.ExpandGlob(pattern)
+			if err != nil {
+				return err
+			}
+			toRemove = append(toRemove, matches...)
+		}
+	}
+
+	// An output that evaluates to the spokfile, the directory it lives in or anything above that
+	// (an empty variable, ".", "..") would take the whole project with it, refuse before removing anything
+	for _, path := range toRemove {
+		rel, err := filepath.Rel(path, spokfile.Dir)
+		if path == spokfile.Path || (err == nil && rel != ".." && !strings.HasPrefix(rel, ".."+string(filepath.Separator))) {
+			return fmt.Errorf("Refusing to remove %s: it is, or contains, the directory of the spokfile", path)
 		}
 	}
 
